@@ -76,6 +76,7 @@ def gen_case(g, cid, force_kind=None):
         n[0] += 1
         return {'k': 'fault', 'id': '%s%s%d' % (PFX[ph], cid, n[0])}
 
+    case['setup'].append({'k': 'real', 'text': 'def string CASEVAL = val-%s' % cid, 'fx': [['noop']]})
     case['setup'].append(probe('setup', observe=True))
     end = 'pass'
     if kind == 'disturber':
@@ -200,8 +201,19 @@ def suite_text(plan, key, order=None):
         lines += ['[cases]', '%s.case' % plan['sub']['case']['id']]
         phases = plan['sub']['phases']
     for ph in phases:
-        lines += ['[%s]' % ph, '%% suite-%s-%s' % (key, ph)]
+        # the suite's instructions are parsed once and shared by all cases: they refer to things that differ per case
+        lines += ['[%s]' % ph, '%% suite-%s-%s %s' % (key, ph, SUITE_ARGS_SETUP if ph == 'setup' else SUITE_ARGS)]
     return '\n'.join(lines) + '\n'
+
+
+SUITE_ARGS_SETUP = '@[EXACTLY_ACT]@'
+SUITE_ARGS = '@[CASEVAL]@ @[EXACTLY_ACT]@ "x-@[CASEVAL]@"'
+
+
+def suite_marker_args(tag, cid):
+    if tag.endswith('-setup'):
+        return [tag, '$SBX/act']
+    return [tag, 'val-' + cid, '$SBX/act', 'x-val-' + cid]
 
 
 # ----------------------------------------------------------------------------- execute
@@ -498,6 +510,9 @@ def oracle(plan, hist):
                 if x is None:
                     continue
                 if e['kind'] == 'spawn':
+                    if e['id'].startswith('suite-') and e['args'] != suite_marker_args(e['id'], cid):
+                        bad('suite_instruction_sees_the_case_it_runs_in', suite_marker_args(e['id'], cid), e['args'],
+                            case=cid, mode=mode)
                     if e['cwd'] != x['cwd']:
                         bad('cwd_does_not_carry_over', {'id': e['id'], 'cwd': x['cwd']}, e['cwd'], case=cid, mode=mode)
                     if e['env'] != x['env']:
